@@ -614,8 +614,10 @@ class kMinPathError(pathmodel.AbstractPathModelDAG):
         non_empty_weights = []
         non_empty_slacks = []
         non_empty_scaled_slacks = []
-        for path, weight, slack, scaled_slack in zip(solution["paths"], solution["weights"], solution["slacks"], solution.get("scaled_slacks", solution["slacks"])):
-            if len(path) > 1:
+        internal_paths = solution.get("_paths_internal", solution["paths"])
+        for path, weight, slack, scaled_slack, internal_path in zip(solution["paths"], solution["weights"], solution["slacks"], solution.get("scaled_slacks", solution["slacks"]), internal_paths):
+            # (in node mode a path made of a single node is not empty: emptiness is judged on the internal path)
+            if len(internal_path) > 1:
                 non_empty_paths.append(path)
                 non_empty_weights.append(weight)
                 non_empty_slacks.append(slack)
